@@ -10,6 +10,7 @@ import (
 	"os"
 	"strconv"
 	"strings"
+	"sync"
 )
 
 // Univ is the key universe of KV.tla: ranks 0..R-1, R = P*(S+1).
@@ -187,6 +188,11 @@ type Trace struct {
 	f *os.File
 	w *bufio.Writer
 	N int
+	// Mu orders trace lines against events buffered by other goroutines
+	// (crash probes taken inside filesystem callbacks): Emit holds it, and
+	// first writes everything in Buf.
+	Mu  sync.Mutex
+	Buf []Ev
 }
 
 func NewTrace(path string) (*Trace, error) {
@@ -198,6 +204,21 @@ func NewTrace(path string) (*Trace, error) {
 }
 
 func (t *Trace) Emit(e Ev) {
+	t.Mu.Lock()
+	defer t.Mu.Unlock()
+	t.FlushBufLocked()
+	t.write(e)
+}
+
+// FlushBufLocked writes the buffered events; t.Mu must be held.
+func (t *Trace) FlushBufLocked() {
+	for _, b := range t.Buf {
+		t.write(b)
+	}
+	t.Buf = t.Buf[:0]
+}
+
+func (t *Trace) write(e Ev) {
 	b, err := json.Marshal(e)
 	if err != nil {
 		panic(err)
